@@ -3,7 +3,7 @@
 From Coq Require Import String List NArith Bool.
 From J5V.lib Require Import Outcome Strcase.
 From J5V.model Require Import J5sAst Desc J5sWalk J5sLink J5sConvert J5sContract J5sValid J5sEdit J5sCorr.
-From J5V.proofs Require Import J5sProofs J5sContractProofs J5sEditProofs J5sExtProofs J5sPkgExtProofs J5sWitnessProofs.
+From J5V.proofs Require Import J5sProofs J5sContractProofs J5sEditProofs J5sExtProofs J5sExtBoolProofs J5sPkgExtProofs J5sC13Proofs J5sWitnessProofs.
 Import ListNotations.
 Local Open Scope N_scope.
 
@@ -37,6 +37,16 @@ Theorem C13_append_option_prefix : forall screaming name nm pfx opts o,
             snd v = N.of_nat (length (en_vals (cv_enum screaming name (mkEnum nm pfx opts)))).
 Proof. intros screaming. exact (cv_enum_snoc screaming screaming screaming). Qed.
 Print Assumptions C13_append_option_prefix.
+
+(* an append at any address inside a declaration - following inline types (through array and
+   map items) and nested declarations to any depth; the action is a field at the end of the
+   message reached, an option at the end of the (non-empty) enum reached, or a nested
+   declaration at the end of the message reached - extends the message in the sense of
+   J5sEdit.props_ext / nesteds_ext *)
+Theorem C13_append_anywhere_extends : forall a path ps subs,
+  props_ext ps (fst (apply_at path a ps subs)) /\ nesteds_ext subs (snd (apply_at path a ps subs)).
+Proof. exact apply_at_ext. Qed.
+Print Assumptions C13_append_anywhere_extends.
 
 (* every append edit, and every sequence of append edits (induction over the edit list:
    fold_left), extends the source file in the sense of J5sEdit.file_src_ext *)
@@ -95,18 +105,62 @@ Proof.
 Qed.
 Print Assumptions C13_package_append_preserves.
 
-(* the property at full strength: for every valid package and every sequence of append edits
-   (fold_left over the list) that leaves it valid, the edited package compiles and every
-   previously generated file, message, field, enum value, service and method is unchanged
-   (embedded: J5sEdit.files_ext).  Proved so far: existence (the edited package compiles:
-   C02_valid_packages_compile) and the embedding for whole packages before the link step
-   (C13_package_append_preserves); the composition through the link step is not yet a theorem
-   (the link step only qualifies type names: J5sLink.v). *)
+(* the property at full strength, on the linked descriptors (what CompilePackage returns): for
+   every valid bundle whose files lie in package directories, every package of it and every
+   sequence of append edits (fold_left over the list: apply_edits; an edit appends a field, an
+   option or a nested declaration anywhere inside a declaration - J5sEdit.EAppendIn and its
+   top-level special cases - or a declaration to a file) each of which addresses a source file,
+   is applicable and leaves the bundle valid (seq_ok), the edited package compiles
+   and every previously generated file, message, field (name, JSON name, number, type, label,
+   optionality, fully qualified type name), nested message, enum value (name, number), service
+   and method (types, HTTP rule) is unchanged: the old descriptors embed into the new ones
+   (J5sEdit.files_ext).  Proved by induction over the edit list; the single step composes the
+   per-file embedding, the growth of the environment, the package-level file list and the fact
+   that qualifying type names commutes with the embedding. *)
 Definition C13_full_statement : Prop :=
-  forall bd es pkg D,
-    valid bd = true -> valid (apply_edits bd es) = true ->
+  forall es bd pkg D,
+    valid bd = true -> (forall x, In x bd -> bfile_pkg x <> []) -> seq_ok bd es ->
+    (exists x, In x bd /\ bfile_pkg x = pkg) ->
     compile bd pkg = Ok D ->
     exists D', compile (apply_edits bd es) pkg = Ok D' /\ files_ext D D'.
+
+(* partial: holds for edit sequences in which options are appended only to enums that already
+   have options (edit_ok inside seq_ok); see C13_append_to_empty_enum_refuted *)
+Theorem C13_full : C13_full_statement.
+Proof. exact c13_full. Qed.
+Print Assumptions C13_full.
+
+(* the boolean test the correspondence evaluates on the REAL descriptors before and after every
+   generated edit list (J5sCorr.c13_check) is sound for the embedding relation of C13_full *)
+Theorem C13_embedding_checker_sound : forall D D', files_ext_b D D' = true -> files_ext D D'.
+Proof. exact files_ext_b_sound. Qed.
+Print Assumptions C13_embedding_checker_sound.
+
+(* non-vacuity of C13_full for deep targets: four edits - a field inside the inline object of an
+   array's items, an option of the inline enum inside that, a field of a nested declaration, a
+   new nested enum - satisfy seq_ok, change the output, and the old descriptors embed *)
+Theorem C13_deep_edits_preserve :
+  exists D D', compile w_deep (b "foo.v1") = Ok D /\
+               compile (apply_edits w_deep w_deep_edits) (b "foo.v1") = Ok D' /\
+               files_ext D D' /\ D' <> D.
+Proof. exact deep_edits_preserve. Qed.
+Print Assumptions C13_deep_edits_preserve.
+
+(* REFUTED for enums without options (known finding, replayed on the real compiler in every run):
+   `enum Status {}` compiles to STATUS_UNSPECIFIED = 0; after appending the option OLD_UNSPECIFIED
+   - which is then the first option, and a first option ending in UNSPECIFIED is the zero value -
+   value 0 is called STATUS_OLD_UNSPECIFIED.  Both versions are valid and compile; the previously
+   generated enum value changed its name.  C13_full excludes the case through seq_ok (an
+   option is appended only to an enum that has options). *)
+Theorem C13_append_to_empty_enum_refuted :
+  valid w_empty_enum = true /\ valid (apply_edits w_empty_enum w_empty_enum_edit) = true /\
+  exists D D', compile w_empty_enum (b "foo.v1") = Ok D /\
+               compile (apply_edits w_empty_enum w_empty_enum_edit) (b "foo.v1") = Ok D' /\
+               zero_value D = Some (b "STATUS_UNSPECIFIED", 0) /\
+               zero_value D' = Some (b "STATUS_OLD_UNSPECIFIED", 0) /\
+               files_ext_b D D' = false.
+Proof. exact append_to_empty_enum_renames_zero. Qed.
+Print Assumptions C13_append_to_empty_enum_refuted.
 
 (* regression example (defect repaired by 2ef7c92): `object Foo { field x object {} }` and the same
    with `field foo object {}` appended both compile, and the existing field x keeps its type *)
